@@ -1,4 +1,5 @@
 SPECIFICATION TSpec
 CONSTANTS
   Chains = {"A", "B", "C"}
+CONSTANT Lite = FALSE
 CHECK_DEADLOCK FALSE
